@@ -6,6 +6,7 @@
 // `reset` / `stop` record the code they were given.
 use vstd::prelude::*;
 
+// verif: counter-overflow-undecided
 verus! {
 
 #[derive(Clone, Copy)]
